@@ -14,7 +14,8 @@ META = dict(
                "non-overridden never, on_error iff raised, post_save iff stored) are proved for stacks of any length, any "
                "override mask and any hook functions, and lifted to any interleaving (C10_concurrent). The models are tied "
                "to /repo on every run: 1-6 concurrent kiq() calls and 1-6 concurrent receiver.callback() calls with 0-3 "
-               "recording middlewares (random masks, sync/async, message-replacing, instance-attribute hooks) must produce a "
+               "recording middlewares (random masks, sync/async, message-replacing, instance-attribute hooks, hooks inherited from "
+               "base classes / mixins / re-overridden by a subclass, two instances of one class) must produce a "
                "global log that is an interleaving of the model's sequences (compared in Coq); a Python oracle re-checks the "
                "statement on the real log.",
     level_note="Hooks that raise abort kiq / callback (FCrash) - modelled and covered by the correspondence; the once/order "
@@ -34,7 +35,7 @@ META = dict(
 
 
 def mask(s):
-    return tuple(sorted(k for k, v in s.items() if v is not None and not v.get("inst")))
+    return tuple(L.own_hooks(s))
 
 
 def nontrivial(case):
